@@ -88,7 +88,7 @@ def run(ctx):
     if not ctx.quick():
         env = {"VERIF_EP_MAXLEN": 4, "VERIF_EP_DEPTH": 2, "VERIF_EP_DEEPLEN": 3,
                "VERIF_EP_SEMS": "1,2", "VERIF_EP_CHUNK": 60000}
-    rc, o = vlib.run_driver(binary, "TestEnumerate", out, ctx.seed, env=env, timeout=1500)
+    rc, o = vlib.run_driver(binary, "TestEnumerate", out, ctx.seed, env=env, timeout=3600)
     if rc != 0:
         raise vlib.Infra("execpipe enumeration driver failed:\n" + o[-2000:])
     meta = json.load(open(out + "/meta.json"))
@@ -96,7 +96,7 @@ def run(ctx):
     out2 = ctx.sub("rand")
     n = 400 if ctx.quick() else 6000
     rc, o = vlib.run_driver(binary, "TestRandom", out2, ctx.seed,
-                            env={"VERIF_N": n, "VERIF_EP_CHUNK": 60000}, timeout=1500)
+                            env={"VERIF_N": n, "VERIF_EP_CHUNK": 60000}, timeout=3600)
     if rc != 0:
         raise vlib.Infra("execpipe random driver failed:\n" + o[-2000:])
 
@@ -109,7 +109,7 @@ def run(ctx):
     penv = {"VERIF_PIPE_STRIDE": 2, "VERIF_PIPE_SEM2": 0, "VERIF_CHUNK": 2500}
     if not ctx.quick():
         penv = {"VERIF_PIPE_STRIDE": 1, "VERIF_PIPE_SEM2": 1, "VERIF_CHUNK": 2500}
-    rc, o = vlib.run_driver(pbinary, "TestPipeline", out3, ctx.seed, env=penv, timeout=1500)
+    rc, o = vlib.run_driver(pbinary, "TestPipeline", out3, ctx.seed, env=penv, timeout=3600)
     if rc != 0:
         raise vlib.Infra("pipeline driver (real base executor) failed:\n" + o[-2000:])
     pmeta = json.load(open(out3 + "/meta.json"))
@@ -120,9 +120,11 @@ def run(ctx):
     if not files or not rfiles or not pfiles:
         raise vlib.Infra("execpipe drivers wrote no trace")
     ctx.cov["samples"] += vlib.sample_lines(files[-1], 8)
-    _validate_all(ctx, pfiles, "pipe", 3000)
-    _validate_all(ctx, rfiles, "rand", 3000)
-    _validate_all(ctx, files, "enum", 3000)
+    # (all limits below and above are real-time guards against a wedged process: exceeding one raises
+    # vlib.Infra = exit 2; no verdict depends on how fast the machine is)
+    _validate_all(ctx, pfiles, "pipe", 6000)
+    _validate_all(ctx, rfiles, "rand", 6000)
+    _validate_all(ctx, files, "enum", 6000)
     ctx.assumptions += [
         "scripted-base runs: the base executor references a digest only if its Put returned nil and attaches Put errors to the response; "
         "the runs with the real localBuildExecutor (step 4) do not assume this",
